@@ -2063,3 +2063,110 @@ func c04languagesValidatedFirst(c *core.Check) {
 	c.Decide(validated, "languages-validated-before-output", key, c.Prog.Rel(gen.Pos()), "every language of "+rules.ExprString(gen.X)+" is looked up, and an unknown one refused, before the first Persist",
 		"the languages are only looked up while generating: `-g go -g nosuch` writes the go files and then exits non-zero, although an invalid command line must write nothing")
 }
+
+// ---------------------------------------------------------------------------------------------------------------------
+// C20: an option leaves every other setting at its documented default. SetNamingStyle re-applies the remembered
+// initialisms setting (cu.doInitialisms) to the style it installs, so the remembered value must start as the documented
+// default of ignore_initialisms (false, i.e. correction enabled). Rule: every bool field of CodeUtils that a setter other
+// than its own re-applies is initialised in NewCodeUtils to the value its own option's action stores for the option's
+// default.
+func c20rememberedDefaults(c *core.Check) {
+	pk := c.Prog.Pkg(golangRel)
+	info := pk.TypesInfo
+	ctor := c.Prog.FuncDecl(golangRel, "NewCodeUtils")
+	if ctor == nil {
+		c.Unknown("anchor", golangRel+".NewCodeUtils", "", "missing")
+		return
+	}
+	// bool fields of CodeUtils read inside a Set*/Use* method that does not assign them
+	type use struct{ field, method string }
+	var uses []use
+	c.Prog.AllFuncDecls(golangRel, func(_ *ast.File, fd *ast.FuncDecl) {
+		if core.RecvName(fd) != "CodeUtils" || !(strings.HasPrefix(fd.Name.Name, "Set") || strings.HasPrefix(fd.Name.Name, "Use")) {
+			return
+		}
+		recv := recvNameOf(fd, "cu")
+		assigned := map[string]bool{}
+		ast.Inspect(fd.Body, func(n ast.Node) bool {
+			if as, ok := n.(*ast.AssignStmt); ok {
+				for _, l := range as.Lhs {
+					assigned[rules.ExprString(l)] = true
+				}
+			}
+			return true
+		})
+		ast.Inspect(fd.Body, func(n ast.Node) bool {
+			se, ok := n.(*ast.SelectorExpr)
+			if !ok || rules.ExprString(se.X) != recv || assigned[rules.ExprString(se)] {
+				return true
+			}
+			if sel, ok := info.Selections[se]; ok && sel.Kind() == types.FieldVal {
+				if b, ok := sel.Type().Underlying().(*types.Basic); ok && b.Kind() == types.Bool {
+					uses = append(uses, use{se.Sel.Name, fd.Name.Name})
+				}
+			}
+			return true
+		})
+	})
+	n := 0
+	for _, u := range uses {
+		// the field's own setter and the option action calling it
+		var own *ast.FuncDecl
+		c.Prog.AllFuncDecls(golangRel, func(_ *ast.File, fd *ast.FuncDecl) {
+			if core.RecvName(fd) != "CodeUtils" || fd.Name.Name == u.method {
+				return
+			}
+			recv := recvNameOf(fd, "cu")
+			ast.Inspect(fd.Body, func(n ast.Node) bool {
+				if as, ok := n.(*ast.AssignStmt); ok && len(as.Lhs) == 1 && rules.ExprString(as.Lhs[0]) == recv+"."+u.field && len(fd.Type.Params.List) == 1 {
+					own = fd
+				}
+				return true
+			})
+		})
+		if own == nil {
+			continue
+		}
+		// how the option's action calls the setter: cu.UseX(!v) or cu.UseX(v), v from checkBool (default of the option: false)
+		want := "unknown"
+		c.Prog.AllFuncDecls(golangRel, func(_ *ast.File, fd *ast.FuncDecl) {})
+		for _, f := range pk.Syntax {
+			ast.Inspect(f, func(nd ast.Node) bool {
+				call, ok := nd.(*ast.CallExpr)
+				if !ok || len(call.Args) != 1 {
+					return true
+				}
+				if fn := rules.Callee(info, call); fn == nil || fn.Name() != own.Name.Name || fn.Pkg() != pk.Types {
+					return true
+				}
+				switch a := ast.Unparen(call.Args[0]).(type) {
+				case *ast.UnaryExpr:
+					if a.Op == token.NOT {
+						want = "true" // the option is a negative switch whose default is false
+					}
+				case *ast.Ident:
+					if want == "unknown" && a.Name != "true" && a.Name != "false" {
+						want = "false"
+					}
+				}
+				return true
+			})
+		}
+		if want == "unknown" {
+			continue
+		}
+		n++
+		// the constructor's literal
+		got := "false"
+		ast.Inspect(ctor.Body, func(nd ast.Node) bool {
+			if kv, ok := nd.(*ast.KeyValueExpr); ok && rules.ExprString(kv.Key) == u.field {
+				got = rules.ExprString(kv.Value)
+			}
+			return true
+		})
+		c.Decide(got == want, "remembered-default-agrees", golangRel+".CodeUtils."+u.field+"~"+u.method, c.Prog.Rel(ctor.Pos()),
+			u.field+" starts as "+got+", the value its option stores for its default; "+u.method+" re-applies it",
+			fmt.Sprintf("%s re-applies cu.%s, which starts as %s although the option behind it stores %s for its documented default: giving the other option explicitly silently changes this setting", u.method, u.field, got, want))
+	}
+	c.Min("remembered-default-agrees", 1)
+}
